@@ -21,6 +21,7 @@ func init() {
 		Rule{ID: "R09b", Doc: "budget arithmetic and OPT reservation", Floor: 14, AllVariants: true, Run: r09b},
 		Rule{ID: "R09c", Doc: "limits per listener", Floor: 6, Run: r09c},
 		Rule{ID: "R09d", Doc: "no reordering of answer/authority records", Floor: 1, AllVariants: true, Run: r09d},
+		Rule{ID: "R02a", Doc: "packLen of every record type equals the size its pack writes (the fit test `off + packLen() > size` relies on it; shared with C02)", Floor: 20, AllVariants: true, Run: r02a},
 	)
 }
 
